@@ -168,14 +168,14 @@ Definition commit (st : state) (id : N) (busy : bool) : state * commit_out :=
   match find (csets st) id with
   | None => (st, CUnknown)
   | Some c =>
+      (* a change set prepared on top of an overlay - whether it is committed as an overlay or as a
+         finished session - is valid only directly after that overlay has been committed *)
       let parent_ok :=
-        if c_overlay c then
-          match c_parent c, marker st with
-          | None, _ => true
-          | Some p, Some m => N.eqb p m
-          | Some _, None => false
-          end
-        else true in
+        match c_parent c, marker st with
+        | None, _ => true
+        | Some p, Some m => N.eqb p m
+        | Some _, None => false
+        end in
       if negb parent_ok then (drop st id, CParent)
       else if busy then (st, CDeferred)
       else if negb (kv_eqb (cur st) (c_base c)) || stale_count st c then (drop st id, CStale)
